@@ -82,7 +82,7 @@ func TestWarmUpEnvelope(t *testing.T) {
 			sat = 3
 		}
 		warm := int(2*g.P + 2)
-		scenario := rapid.IntRange(0, 3).Draw(t, "scenario")
+		scenario := rapid.IntRange(0, 4).Draw(t, "scenario")
 		c.Op("T=%v period=%ds coldFactor=%d scenario=%d", g.T, g.P, g.CF, scenario)
 		coldBound := int(math.Ceil(g.T/cf)) + 1
 		switch scenario {
@@ -95,7 +95,7 @@ func TestWarmUpEnvelope(t *testing.T) {
 					t.Fatalf("second %d: admitted %d > floor(threshold %v) (admitted/s %v)", s, n, g.T, per)
 				}
 			}
-			if per[0] > coldBound {
+			if per[0] > coldBound && !(starveShape && exP9) {
 				t.Fatalf("cold start: first second admitted %d > ceil(T/coldFactor)+1 = %d", per[0], coldBound)
 			}
 			if starveShape && exP9 {
@@ -142,6 +142,24 @@ func TestWarmUpEnvelope(t *testing.T) {
 				c.Excluded("P9")
 			} else if sum == 0 {
 				t.Fatalf("threshold %v >= 1, steady demand of %d request/s for %d s: nothing was ever admitted (starved)", g.T, d, len(per))
+			}
+		case 4: // warm up fully, a few short idle gaps each followed by a single request, then a long idle: cold again
+			loadWarm(t, g)
+			_ = demand(0, warm+2, sat)
+			sec := warm + 2
+			rounds := rapid.IntRange(1, 3).Draw(t, "rounds")
+			for r := 0; r < rounds; r++ {
+				gap := rapid.IntRange(1, int(g.P)+2).Draw(t, "shortGap")
+				sec += gap
+				one := demand(sec, 1, 1)
+				sec++
+				c.Op("idle %ds then one request -> %v", gap, one)
+			}
+			idle := int(2*g.P+2) + rapid.IntRange(0, 3).Draw(t, "extraIdle")
+			per := demand(sec+idle, 1, sat)
+			c.Op("after idle %ds admitted/s %v", idle, per)
+			if per[0] > coldBound && !(starveShape && exP9) {
+				t.Fatalf("after short gaps and then an idle gap of %d s the first second admitted %d > ceil(T/coldFactor)+1 = %d (the rule did not cool down)", idle, per[0], coldBound)
 			}
 		case 3: // arbitrary demand phases: never above the threshold, never unlimited
 			loadWarm(t, g)
